@@ -20,6 +20,7 @@ from dv import core
 from dv import trees as T
 from dv import c12_graph as G
 from dv import c12_build as B
+from dv import c12_alias as A
 
 HEADER = "From DV Require Import Model.PyPrims Model.C12Model Model.C12Spec2.\nFrom Coq Require Import ZArith. Open Scope Z_scope."
 
@@ -74,6 +75,51 @@ def _targets(case, rng, n=8):
     elif kind != "ns":
         for k in range(len(case["seqs"])):
             out.append(["seq", k])
+    return out
+
+
+def _directed_pairs(case):
+    """wave 7: (holder, owner) address pairs for attribute-bound annotations given an owner_instance= that is NOT the
+    annotated object, chosen so that the owner is copied EARLIER or LATER than the holder by the traversal of
+    copy.deepcopy: siblings in both orders, trees of a list in both orders, a taxon and a node, the root and a member"""
+    out = []
+    kind = case["type"]
+    nn = case["ns"]["n"]
+    if kind in ("tree", "treelist"):
+        for ti, ts in enumerate(case["trees"]):
+            pre = T.preorder(ts["spec"])
+            idx = {id(n): i for i, n in enumerate(pre)}
+            for n in pre:
+                ks = [idx[id(k)] for k in n["kids"]]
+                for a in ks:
+                    for b in ks:
+                        if a != b:
+                            out.append((["node", ti, a], ["node", ti, b]))
+                            out.append((["edge", ti, a], ["node", ti, b]))
+                            out.append((["node", ti, a], ["edge", ti, b]))
+            for i, n in enumerate(pre):
+                if n["taxon"] is not None and nn:
+                    out.append((["taxon", n["taxon"] % nn], ["node", ti, i]))
+            for tj in range(len(case["trees"])):
+                if tj != ti:
+                    out.append((["tree", ti], ["tree", tj]))
+                    out.append((["node", ti, 0], ["tree", tj]))
+            if kind == "treelist":
+                out.append((["root"], ["tree", ti]))
+                out.append((["tree", ti], ["root"]))
+    elif kind != "ns":
+        for a in range(len(case["seqs"])):
+            out.append((["root"], ["seq", a]))
+            out.append((["taxon", case["seqs"][a][0]], ["seq", a]))
+            for b in range(len(case["seqs"])):
+                if a != b:
+                    out.append((["seq", a], ["seq", b]))
+    else:
+        for a in range(nn):
+            out.append((["taxon", a], ["ns"]))
+            for b in range(nn):
+                if a != b:
+                    out.append((["taxon", a], ["taxon", b]))
     return out
 
 
@@ -146,10 +192,17 @@ def gen_case(rng, big=False):
             if prev:
                 d = rng.choice(prev)
                 deco.append(["ann", ["ann", d[1], 0], "sub", _gen_val(rng, [])])
+    # wave 7: an attribute-bound annotation whose owner_instance is another object of the structure
+    if rng.random() < 0.3:
+        pairs = _directed_pairs(case)
+        for _ in range(rng.choice([1, 1, 2]) if pairs else 0):
+            holder, owner = rng.choice(pairs)
+            deco.append(["bound_other", holder, owner, rng.choice(["shared_attr", "zz"]), _gen_val(rng, [])])
     if kind in ("tree", "treelist"):
         for ti in range(len(case["trees"])):
-            if rng.random() < (0.7 if case["ns"].get("history") else 0.35):
-                deco.append(["encode", ti, rng.random() < 0.5])
+            if rng.random() < (0.7 if case["ns"].get("history") else 0.4):
+                # [.., bipartition_edge_map built?, bipartitions left mutable?]  (default encoding: frozen)
+                deco.append(["encode", ti, rng.random() < 0.5, rng.random() < 0.3])
     elif kind != "ns":
         if rng.random() < 0.4:
             deco.append(["subset", rng.choice(["Codon1", "s2"]), sorted(rng.sample(range(6), rng.randint(0, 3)))])
@@ -162,6 +215,9 @@ def gen_case(rng, big=False):
     case["route"] = rng.choice(routes)
     case["via_ctor"] = (kind != "ns") and rng.random() < 0.07
     case["mut"] = {"side": rng.choice(["src", "copy"]), "op": gen_mut(rng, case, tg)}
+    # wave 7: a second step, on the OTHER side (both objects are re-observed after every step)
+    if rng.random() < 0.5:
+        case["mut2"] = {"op": gen_mut(rng, case, tg)}
     return case
 
 
@@ -192,6 +248,11 @@ def gen_mut(rng, case, tg):
     if bound:
         b = rng.choice(bound)
         common += [(8, lambda: ["setattr", b[1], b[2], ["int", 4242]])]
+    foreign = [d for d in case["deco"] if d[0] == "bound_other"]
+    if foreign:
+        # the attribute a foreign-owner annotation is bound to, on the owner
+        fo = rng.choice(foreign)
+        common += [(10, lambda: ["setattr", fo[2], fo[3], ["int", 5151]])]
     if extras:
         e = rng.choice(extras)
         common += [(5, lambda: ["extra_inplace", e[1], e[2]])]
@@ -205,6 +266,12 @@ def gen_mut(rng, case, tg):
                    (2, lambda: ["swap_children", ti, i]), (5, lambda: ["encode", ti]),
                    (2, lambda: ["rooting", ti, rng.choice([True, False, None])]),
                    (2, lambda: ["retaxon", ti, i, rng.randrange(nn)])]
+        # wave 7: in-place edits of bipartition data (no re-encoding), mostly on trees that carry an encoding
+        w = 6 if any(d[0] == "encode" and d[1] == ti for d in case["deco"]) else 1
+        common += [(w, lambda: ["bip_split", ti, i, rng.randrange(1, 64)]),
+                   (w, lambda: ["bip_leafset", ti, i, rng.randrange(1, 64)]),
+                   (w, lambda: ["bip_unfreeze", ti, i, rng.randrange(1, 64)]),
+                   ((w + 1) // 2, lambda: ["enc_inplace", ti])]
     if kind == "treelist":
         common += [(3, lambda: ["tl_append"]), (2, lambda: ["tl_reverse"])]
         if case["trees"]:
@@ -237,19 +304,34 @@ def observe(case):
     D = G.Dumper()
     skip = ("extraction_source",) if route in ("extract", "extract_keep") else ()
     obs = {}
+    # The graph dump (the model's heap) may refuse an object shape it does not know (G.Unsupported).  That is
+    # recorded (and is an obligation of the run: it never happens on the library as modelled) but NOT the end of the
+    # observation: the naive identity-level observation (c12_alias) and the content summary go on regardless.
+    graph = True
+
+    def no_graph(why):
+        obs["unsupported"] = why
+        for k in ("h0", "h1new", "n0", "n1", "root_oid", "ns_oid", "kinds0"):
+            obs.pop(k, None)
+        return False
+
     try:
         h0, (r0,) = D.dump([root])
     except G.Unsupported as e:
-        return {"unsupported": str(e)}
-    n0 = len(D.keep)
-    D.n0 = n0
-    assert sorted(h0) == list(range(n0))
+        graph = no_graph(str(e))
+    if graph:
+        n0 = len(D.keep)
+        D.n0 = n0
+        assert sorted(h0) == list(range(n0))
+        obs["n0"] = n0
+        obs["root_oid"] = r0[1]
+        obs["ns_oid"] = D.known(B.namespace_of(root))
+        obs["h0"] = _pack(h0)
+        obs["kinds0"] = _census(h0)
+        obs["dispatch"] = _dispatch_seen(D)
     sum0 = B.summary(root)
-    obs["n0"] = n0
-    obs["root_oid"] = r0[1]
-    obs["ns_oid"] = D.known(B.namespace_of(root))
-    obs["h0"] = _pack(h0)
-    obs["kinds0"] = _census(h0)
+    W0 = A.Walk([root], (), ["source"])
+    snap0 = A.snapshot(W0)
     try:
         with core.alarm(20):
             cp = B.do_copy(root, route)
@@ -260,34 +342,49 @@ def observe(case):
         obs["copy"] = ["Err", "ReturnedNone", "the copy route returned None"]
         return obs
     shared_objs = B.allowed_shared(root, kind, route)
-    try:
-        h1, vals = D.dump([root, cp] + shared_objs, skip_attrs=skip)
-    except G.Unsupported as e:
-        return {"unsupported": "copy: " + str(e)}
-    r1, rc = vals[0], vals[1]
-    svals = vals[2:]
-    n1 = len(D.keep)
-    obs["copy"] = ["Ok", rc]
-    obs["is_same_object"] = cp is root
-    obs["n1"] = n1
-    obs["h1new"] = _pack({i: o for i, o in h1.items() if i >= n0})
-    obs["src_untouched_by_copy"] = all(h1[i] == h0[i] for i in h0 if i in h1) and G.canonical(h0, r0) == G.canonical(h1, r1)
-    # sharing (naive sets)
-    reach_src = G.reach_ids(h1, [r1])
-    reach_cp = G.reach_ids(h1, [rc])
-    reach_sh = G.reach_ids(h1, svals)
-    atom = set(i for i, o in h1.items() if o["kind"] == "atomic")
-    obs["shared_unexpected"] = sorted((reach_src & reach_cp) - reach_sh - atom - _tuples(h1))[:12]
-    obs["shared_unexpected_cls"] = sorted(set(h1[i]["cls"] for i in obs["shared_unexpected"]))
-    seeds = set(v[1] for v in svals)
-    obs["seeds"] = sorted(seeds)
-    obs["seeds_missing_from_copy"] = sorted(i for i in seeds if i in reach_src and i not in reach_cp)[:12]
-    obs["n_shared"] = len(reach_src & reach_cp)
-    # copy constructors: an object other than the copy that owns the copy's attribute dictionary
-    obs["twin"] = any(getattr(D.keep[i], "__dict__", None) is cp.__dict__ and D.keep[i] is not cp
-                      for i in reach_cp if i < len(D.keep) and not isinstance(D.keep[i], list))
-    # content
     depth = B.depth_of(kind, route)
+    # ---- naive identity-level observation (independent of the dumper)
+    NP = A.Pair(root, cp, shared_objs, skip)
+    obs["nshared"] = NP.shared_report()
+    obs["nshared_cls"] = NP.shared_classes()
+    obs["nshared_empty"] = NP.shared_empty()
+    obs["nshared_n"] = len(NP.shared)
+    obs["nsrc_untouched"] = (A.snapshot(W0) == snap0)
+    if graph:
+        try:
+            h1, vals = D.dump([root, cp] + shared_objs, skip_attrs=skip)
+        except G.Unsupported as e:
+            graph = no_graph("copy: " + str(e))
+    if graph:
+        r1, rc = vals[0], vals[1]
+        svals = vals[2:]
+        n1 = len(D.keep)
+        obs["copy"] = ["Ok", rc]
+        obs["n1"] = n1
+        obs["h1new"] = _pack({i: o for i, o in h1.items() if i >= n0})
+        obs["src_untouched_by_copy"] = all(h1[i] == h0[i] for i in h0 if i in h1) and G.canonical(h0, r0) == G.canonical(h1, r1)
+        # sharing (naive sets)
+        reach_src = G.reach_ids(h1, [r1])
+        reach_cp = G.reach_ids(h1, [rc])
+        reach_sh = G.reach_ids(h1, svals)
+        atom = set(i for i, o in h1.items() if o["kind"] == "atomic")
+        obs["shared_unexpected"] = sorted((reach_src & reach_cp) - reach_sh - atom - _tuples(h1))[:12]
+        obs["shared_unexpected_cls"] = sorted(set(h1[i]["cls"] for i in obs["shared_unexpected"]))
+        seeds = set(v[1] for v in svals)
+        obs["seeds"] = sorted(seeds)
+        obs["seeds_missing_from_copy"] = sorted(i for i in seeds if i in reach_src and i not in reach_cp)[:12]
+        obs["n_shared"] = len(reach_src & reach_cp)
+        # copy constructors: an object other than the copy that owns the copy's attribute dictionary
+        obs["twin"] = any(getattr(D.keep[i], "__dict__", None) is cp.__dict__ and D.keep[i] is not cp
+                          for i in reach_cp if i < len(D.keep) and not isinstance(D.keep[i], list))
+        obs["dispatch"] = _dispatch_seen(D)
+    else:
+        obs["copy"] = ["Ok", None]
+        obs["twin"] = any(getattr(x, "__dict__", None) is cp.__dict__ and x is not cp
+                          for x in NP.cpw.objs.values() if not isinstance(x, list))
+        obs["seeds_missing_from_copy"] = []
+    obs["is_same_object"] = cp is root
+    # content
     thin = depth == "thin"
     shallow = depth == "shallow"
     sumS = B.summary(root, thin=thin, shallow=shallow)
@@ -306,38 +403,129 @@ def observe(case):
     if sumS != sumC:
         obs["summary_diff"] = _first_diff(sumS, sumC)
     # bound annotations / annotation targets on the copy
-    obs["bound"] = _bound_report(root, cp, depth)
-    # mutation on one side
+    if depth == "shallow":
+        obs["bound"] = _bound_report(root, cp, depth)[:8]
+        obs["bound_shallow"] = _owner_report(root, cp, depth)[:4]
+    else:
+        obs["bound"] = (_bound_report(root, cp, depth) + _owner_report(root, cp, depth))[:8]
+    # ---- later steps: one on `side`, optionally a second one on the other side; after EVERY step the side that was
+    # not operated on is re-observed (graph dump, naive fingerprints of every object of its region, summary)
     side = case["mut"]["side"]
-    mroot, oroot = (root, cp) if side == "src" else (cp, root)
-    oval = rc if side == "src" else r1
-    stop = reach_sh | atom
-    obs["other_val"] = oval
-    before = G.canonical(h1, oval, stop=stop)
-    before_sum = B.summary(oroot, thin=False, shallow=shallow)
-    try:
-        with core.alarm(20):
-            B.apply_mut(mroot, case["mut"]["op"])
-        obs["mut"] = "done"
-    except Exception as e:
-        obs["mut"] = "failed:%s" % type(e).__name__
-    try:
-        h2, vals2 = D.dump([root, cp] + shared_objs, skip_attrs=skip)
-    except G.Unsupported as e:
-        obs["mut"] = "unsupported-after"
-        return obs
-    oval2 = vals2[1] if side == "src" else vals2[0]
-    after = G.canonical(h2, oval2, stop=stop)
-    obs["other_graph_unchanged"] = (before == after)
-    after_sum = B.summary(oroot, thin=False, shallow=shallow)
-    obs["other_summary_unchanged"] = (before_sum == after_sum)
-    if before_sum != after_sum:
-        obs["other_summary_diff"] = _first_diff(before_sum, after_sum)
-    written = sorted(i for i in h1 if i in h2 and h1[i] != h2[i]) + sorted(i for i in h1 if i not in h2 and False)
-    obs["written"] = written
-    obs["written_shared"] = bool(set(written) & reach_sh)
-    obs["written_in_other"] = sorted(set(written) & (G.reach_ids(h1, [oval]) - stop))[:12]
+    steps = [(side, case["mut"]["op"])]
+    if case.get("mut2"):
+        steps.append(("copy" if side == "src" else "src", case["mut2"]["op"]))
+    obs["steps"] = []
+    for sn, (sd, op) in enumerate(steps):
+        mroot, oroot = (root, cp) if sd == "src" else (cp, root)
+        oside = "copy" if sd == "src" else "src"
+        st = {"side": sd, "op": op}
+        nbefore = NP.snap(oside)
+        nshared_before = {i: A.fingerprint(x) for i, x in NP.allowed.objs.items() if i not in NP.allowed.opaque}
+        before_sum = B.summary(oroot, thin=False, shallow=shallow)
+        if sn == 0 and graph:
+            oval = rc if sd == "src" else r1
+            stop = reach_sh | atom
+            obs["other_val"] = oval
+            before = G.canonical(h1, oval, stop=stop)
+        try:
+            with core.alarm(20):
+                B.apply_mut(mroot, op)
+            st["mut"] = "done"
+        except Exception as e:
+            st["mut"] = "failed:%s" % type(e).__name__
+        if sn == 0:
+            obs["mut"] = st["mut"]
+        st["changed_other"] = NP.changed(oside, nbefore)[:6]
+        st["shared_written"] = any(A.fingerprint(NP.allowed.objs[i]) != fp for i, fp in nshared_before.items())
+        after_sum = B.summary(oroot, thin=False, shallow=shallow)
+        st["other_summary_unchanged"] = (before_sum == after_sum)
+        if before_sum != after_sum:
+            st["other_summary_diff"] = _first_diff(before_sum, after_sum)
+        obs["steps"].append(st)
+        if sn == 0:
+            obs["other_summary_unchanged"] = st["other_summary_unchanged"]
+            if "other_summary_diff" in st:
+                obs["other_summary_diff"] = st["other_summary_diff"]
+        if sn == 0 and graph:
+            try:
+                h2, vals2 = D.dump([root, cp] + shared_objs, skip_attrs=skip)
+            except G.Unsupported as e:
+                obs["mut"] = "unsupported-after"
+                obs["unsupported_after"] = str(e)
+                graph = False
+                continue
+            oval2 = vals2[1] if sd == "src" else vals2[0]
+            after = G.canonical(h2, oval2, stop=stop)
+            obs["other_graph_unchanged"] = (before == after)
+            written = sorted(i for i in h1 if i in h2 and h1[i] != h2[i])
+            obs["written"] = written
+            obs["written_shared"] = bool(set(written) & reach_sh)
+            obs["written_in_other"] = sorted(set(written) & (G.reach_ids(h1, [oval]) - stop))[:12]
     return obs
+
+
+def _dispatch_seen(D):
+    """class name -> [kind the dumper derived from the class at run time, qualified name of the __deepcopy__ it resolved]
+    for every class of a numbered object (compared with the table the translator extracts from the source)"""
+    out = {}
+    for x in D.keep:
+        if isinstance(x, list) and len(x) == 2 and x[0] == "tuple-occurrence":
+            continue
+        t = type(x)
+        if t in (list, dict, set, frozenset, tuple) or t.__name__ in out:
+            continue
+        try:
+            k = G.kind_of(x)
+        except G.Unsupported:
+            continue
+        dc = getattr(t, "__deepcopy__", None)
+        out[t.__name__] = [k, getattr(dc, "__qualname__", None)]
+    return out
+
+
+# The clause on foreign owners for the SHALLOW routes (copy.copy / clone(0) of TreeList / CharacterMatrix: an annotation of
+# the container bound to an attribute of a MEMBER ends up bound to a private deep copy of the member).  The unchanged
+# library does this; proposed to the orchestrator as finding shallow-copy-foreign-owner-annotation-follows-hidden-clone.
+# Off (only counted) until the key is listed.
+SHALLOW_OWNER_CLAUSE = True
+
+
+def _owner_report(root, cp, depth):
+    """wave 7: attribute-bound annotations given an owner_instance= other than the annotated object.  For every
+    annotable part of the source and every bound annotation on it whose owner is ANOTHER part of the source: the
+    corresponding annotation of the copy is bound to the part of the COPY at the same position (which is the very
+    same object only where the documented depth shares it, i.e. when the part at that position is shared)."""
+    bad = []
+    if depth not in ("deep", "scoped", "shallow"):
+        return bad
+    src = _annotables(root)
+    cpl = dict(_annotables(cp))
+    pos_of = {}
+    for p, o in src:
+        pos_of.setdefault(id(o), p)
+    for pos, s in src:
+        o = cpl.get(pos)
+        if o is None or o is s or not hasattr(s, "_annotations") or not hasattr(o, "_annotations"):
+            continue
+        for a_s, a_c in zip(s._annotations, o._annotations):
+            if not (a_s.is_attribute and a_c.is_attribute):
+                continue
+            own_s = a_s._value[0]
+            if own_s is s:
+                continue            # bound to the annotated object itself: _bound_report
+            p = pos_of.get(id(own_s))
+            want = cpl.get(p) if p is not None else None
+            if want is None:
+                continue
+            got = a_c._value[0]
+            if got is not want:
+                rel = "still-the-source-object" if got is own_s else "a-third-object"
+                bad.append([pos, "foreign-owner:%s:%s:%s->%s" % (a_c._value[1], rel, _pos_kind(pos), _pos_kind(p))])
+    return bad
+
+
+def _pos_kind(p):
+    return p.rstrip("0123456789.")
 
 
 def _members_same(root, cp):
@@ -441,8 +629,10 @@ def _bound_report(root, cp, depth):
 
 def oracle(case, obs):
     kind, route = case["type"], case["route"]
-    if "unsupported" in obs:
+    if "copy" not in obs:
         return None
+    # (a graph dump the model could not take - obs["unsupported"] - does not stop the oracle: every clause below is
+    # stated on the naive observations when the dump is missing)
     tag = "%s/%s" % (kind, route)
     depth = B.depth_of(kind, route)
     cp = obs["copy"]
@@ -452,16 +642,24 @@ def oracle(case, obs):
         if True:
             what = "%s of a %s raised %s" % (route, kind, cp[2])
             return (what, _err_key(case, cp))
-    if not obs["src_untouched_by_copy"] or not obs["summary_src_unchanged"]:
+    if not obs.get("src_untouched_by_copy", True) or not obs["summary_src_unchanged"] or not obs.get("nsrc_untouched", True):
         return ("%s: copying changed the source object" % tag, "copy-mutates-source:%s" % tag)
     if depth == "self":
         if not obs["is_same_object"]:
             return ("%s: taxon-namespace-scoped copy of a namespace is not the namespace itself" % tag, "ns-scoped-not-self")
         return None
-    if obs["shared_unexpected"]:
-        return ("%s (documented depth: %s): source and copy share mutable objects they must not share: classes %s (oids %s)"
-                % (tag, depth, obs["shared_unexpected_cls"], obs["shared_unexpected"]),
+    if obs.get("shared_unexpected"):
+        return ("%s (documented depth: %s): source and copy share mutable objects they must not share: classes %s (oids %s; "
+                "from the copy: %s)" % (tag, depth, obs["shared_unexpected_cls"], obs["shared_unexpected"],
+                                        [e[1] for e in obs.get("nshared", [])][:4]),
                 "shares:%s:%s:%s" % (kind, _route_class(route), "+".join(obs["shared_unexpected_cls"])[:60]))
+    if obs.get("nshared"):
+        # the naive identity walk (no knowledge of classes; EMPTY containers are objects like any other)
+        return ("%s (documented depth: %s): the copy holds %d mutable object(s) of the source that the documented depth does "
+                "not share (%d of them empty containers): %s"
+                % (tag, depth, obs["nshared_n"], obs["nshared_empty"],
+                   "; ".join("%s at %s (source: %s)" % tuple(e) for e in obs["nshared"][:4])),
+                "shares:%s:%s:%s" % (kind, _route_class(route), "+".join(obs["nshared_cls"])[:60]))
     if obs["seeds_missing_from_copy"] and depth != "deep":
         return ("%s: the copy does not reference the source's namespace/taxa/members it is documented to share (oids %s)"
                 % (tag, obs["seeds_missing_from_copy"]), "not-sharing-namespace:%s:%s" % (kind, _route_class(route)))
@@ -493,10 +691,17 @@ def oracle(case, obs):
     if not obs["summary_equal"]:
         return ("%s: copy differs from source in observable content: %s" % (tag, obs.get("summary_diff")),
                 "content:%s:%s:%s" % (kind, _route_class(route), _diff_class(obs.get("summary_diff", ""))))
+    if SHALLOW_OWNER_CLAUSE and obs.get("bound_shallow"):
+        return ("%s: an annotation of the shallow copy that is bound (owner_instance=) to an attribute of a member follows a "
+                "private deep copy of the member, not the member the copy holds: %s" % (tag, obs["bound_shallow"]),
+                "shallow-copy-foreign-owner-annotation-follows-hidden-clone")
     if obs["bound"]:
         return ("%s: annotations of the copy are not bound to the copy (%s)" % (tag, obs["bound"]),
                 "annotation-owner:%s:%s:%s" % (kind, _route_class(route), obs["bound"][0][1].split(":")[0]))
-    if obs.get("mut") == "done":
+    v = _steps_oracle(case, obs, tag, depth)
+    if v:
+        return v
+    if obs.get("mut") == "done" and "written" in obs:
         m = case["mut"]["op"]
         # the mutation wrote into the region both sides are documented to share (namespace, taxa,
         # members of a shallow copy): then, and only then, it may be visible through the other side
@@ -507,6 +712,31 @@ def oracle(case, obs):
         if not shared_mut and not obs["other_summary_unchanged"]:
             return ("%s: mutation %s of the %s is visible through the other object: %s"
                     % (tag, m, case["mut"]["side"], obs.get("other_summary_diff")),
+                    "visible:%s:%s:%s" % (kind, _route_class(route), m[0]))
+    return None
+
+
+def _steps_oracle(case, obs, tag, depth):
+    """an operation on one object changes no observation of the other: naive fingerprints of every object of the other
+    side's region and its content summary, after every step (first step on one side, second on the other)"""
+    kind, route = case["type"], case["route"]
+    for sn, st in enumerate(obs.get("steps", [])):
+        if st.get("mut") != "done":
+            continue
+        m = st["op"]
+        if st["changed_other"]:
+            return ("%s: step %d, %s on the %s, changed object(s) of the other side outside the documented shares: %s"
+                    % (tag, sn + 1, m, st["side"], "; ".join("%s at %s" % tuple(e) for e in st["changed_other"][:4])),
+                    "frame:%s:%s:%s" % (kind, _route_class(route), m[0]))
+        shared_mut = st["shared_written"] or (B.mut_touches_taxa(m) and depth != "deep")
+        if sn > 0 and not shared_mut and not st["other_summary_unchanged"]:
+            # (step 1 is reported by the clause below, with the graph dump's `written` set when there is one)
+            return ("%s: step %d, %s on the %s, is visible through the other object: %s"
+                    % (tag, sn + 1, m, st["side"], st.get("other_summary_diff")),
+                    "visible:%s:%s:%s" % (kind, _route_class(route), m[0]))
+        if sn == 0 and "written" not in obs and not shared_mut and not st["other_summary_unchanged"]:
+            return ("%s: mutation %s of the %s is visible through the other object: %s"
+                    % (tag, m, st["side"], st.get("other_summary_diff")),
                     "visible:%s:%s:%s" % (kind, _route_class(route), m[0]))
     return None
 
@@ -670,6 +900,12 @@ def make_cases(ctx, n):
         ctx.count("mut:" + c["mut"]["op"][0])
         for d in c["deco"]:
             ctx.count("deco:" + d[0])
+            if d[0] == "encode":
+                ctx.count("w7:encoded before copying:" + ("mutable bipartitions" if len(d) > 3 and d[3] else "frozen bipartitions"))
+            if d[0] == "bound_other":
+                ctx.count("w7:owner_instance=:%s->%s" % (d[1][0], d[2][0]))
+        if c.get("mut2"):
+            ctx.count("mut2:" + c["mut2"]["op"][0])
     return cases
 
 
@@ -681,7 +917,24 @@ def exhaustive_cases(rng):
             spec = T.shape_to_tree(shape, lengths=lambda r: r.choice([None, 512, 1024]), rng=rng)
             ncount = len(T.preorder(spec))
             for route in B.ROUTES:
-                for prof in (0, 1):
+                for prof in (0, 1, 2):
+                    if prof == 2:
+                        # wave 7: encoded (frozen / mutable) before copying, an annotation bound to a sibling's attribute,
+                        # an in-place bipartition edit on one side and a structural edit at a tip on the other
+                        kids = [i for i, nd in enumerate(T.preorder(spec)) if i > 0]
+                        deco = [["encode", 0, rng.random() < 0.5, rng.random() < 0.3]]
+                        if len(kids) >= 2:
+                            a, b = rng.sample(kids, 2)
+                            deco.insert(0, ["bound_other", ["node", 0, a], ["node", 0, b], "shared_attr", ["int", 3]])
+                        yield {"type": "tree", "deco": deco, "label": None, "ns": {"n": n, "label": None},
+                               "trees": [{"spec": spec, "rooted": rng.choice([None, True, False]), "label": None, "weight": None}],
+                               "route": route, "via_ctor": False,
+                               "mut": {"side": rng.choice(["src", "copy"]),
+                                       "op": rng.choice([["bip_split", 0, rng.randrange(ncount), 5], ["bip_unfreeze", 0, rng.randrange(ncount), 6],
+                                                         ["bip_leafset", 0, rng.randrange(ncount), 3], ["enc_inplace", 0]])},
+                               "mut2": {"op": rng.choice([["new_child", 0, ncount - 1], ["comment_add", ["node", 0, ncount - 1], "c"],
+                                                          ["setattr", ["node", 0, 1], "shared_attr", ["int", 9]]])}}
+                        continue
                     deco = []
                     if prof:
                         deco = [["ann", ["node", 0, ncount - 1], "a", ["list", [["int", 1]]]],
@@ -955,6 +1208,61 @@ def iso5_hypotheses(ctx, kept, shard):
                                                     "deco": other[0]["deco"]})[:1200]))
 
 
+def dumper_obligations(ctx, unsupported, dispatch_seen):
+    """wave 7: (1) the graph dumper - the model's view of the heap - accepts every object of every generated case (it
+    refuses, e.g., a class with a __deepcopy__ it does not know; the oracle has gone on with the naive observation on
+    such cases, so a concrete input is reported whenever there is one); (2) what the RUNNING library dispatches
+    copy.deepcopy to, for every class of a dumped object, is what the translator read off the source (Gen/CopyGen.v
+    part 3, proved equal to Model/C12Classes.v in Props/C12Gen.v)."""
+    ctx.obligation("the graph dumper accepts every object of every generated case (no class with an unknown __deepcopy__, "
+                   "no unknown container shape)", not unsupported)
+    if unsupported:
+        reasons = sorted(set(r for _c, r in unsupported))
+        ctx.notes.append("graph dump refused on %d case(s): %s" % (len(unsupported), "; ".join(reasons)[:600]))
+        ctx.count("graph dump refused", len(unsupported))
+    try:
+        from dv import gen_copy
+        table = gen_copy.class_kinds(core.REPO)
+        err = None
+    except Exception as e:      # the translator failed closed: already an obligation of the proof stage
+        table, err = {}, "%s: %s" % (type(e).__name__, e)
+    bad = []
+    if err is None:
+        for cls, vals in sorted(dispatch_seen.items()):
+            want = table.get(cls)
+            if want is None:
+                bad.append("class %s occurs in a copied structure but the translator has no dispatch fact for it" % cls)
+                continue
+            for kind, qual in vals:
+                definer = qual.split(".")[0] if qual else None
+                if (kind, definer) != (want[0], want[1]):
+                    bad.append("class %s: running library dispatches to %s (%s), the source says %s (%s)"
+                               % (cls, qual, kind, want[1], want[0]))
+        ctx.count("w7:classes whose run-time dispatch was compared with the source", len(dispatch_seen))
+    ctx.obligation("run-time copy.deepcopy dispatch of every dumped class = the dispatch table extracted from the source", not bad and err is None)
+    for b in bad[:6]:
+        ctx.notes.append(b)
+    if err:
+        ctx.notes.append("dispatch table not extractable: " + err[:300])
+
+
+HEADERA = ("From DV Require Import Model.PyPrims Model.C12Model Model.C12Spec2 Model.C12Classes.\n"
+           "From Coq Require Import ZArith. Open Scope Z_scope.")
+
+
+def alias_hypotheses(ctx, kept, shard):
+    """wave 7: the extra hypothesis of deep_copy_shares_only_atomic_objects / scoped_copy_shares_only_namespace_region_and_
+    atomic_objects (atomic objects are opaque in the dumped heap) holds on every dumped case"""
+    run = [(c, t) for c, t in kept if "(ESkip" not in t]
+    if not run:
+        return
+    bad, errors = core.run_cases(ctx.pid, HEADERA, "case_alias_hyp", [t for _, t in run], shard=max(shard, 100), tag="_alias")
+    ctx.obligation("atomic objects are opaque (atomic_opaque) on every dumped heap (%d cases, vm_compute)" % len(run),
+                   not errors and not bad)
+    for e in errors:
+        ctx.notes.append(e[:1500])
+
+
 def run(tier, seed, replay=None):
     ctx = core.Ctx("C12", tier, seed)
     ctx.assumptions = [
@@ -962,6 +1270,7 @@ def run(tier, seed, replay=None):
         "object graphs are dumped by py/dv/c12_graph.py: immutable values are interned ids, tuples have no identity, StateAlphabet/StateIdentity are opaque",
         "Python recursion depth is outside the model (trees <= 60 nodes)",
         "variant of AnnotationSet.__deepcopy__ in the working tree (target None accepted: %s) decided by probing the library" % none_target_ok(),
+        "naive identity-level observation (py/dv/c12_alias.py): StateAlphabet / StateIdentity instances are documented value objects (not followed, never counted as shared)",
     ]
     if replay:
         r = json.load(open(replay))["replay"]
@@ -986,9 +1295,23 @@ def run(tier, seed, replay=None):
         ctx.count("exhaustive-small-trees", len(ex))
         cases.extend(ex)
     cache = {}
+    unsupported = []        # (case, reason): graph dumps the model's view of the heap could not take
+    dispatch_seen = {}      # class -> [kind, qualified name of the resolved __deepcopy__] as dumped at run time
 
     def obs_cached(case):
-        return observe(case)
+        o = observe(case)
+        if "unsupported" in o or "unsupported_after" in o:
+            unsupported.append((case, o.get("unsupported") or o.get("unsupported_after")))
+        for k, v in o.get("dispatch", {}).items():
+            dispatch_seen.setdefault(k, set()).add(tuple(v))
+        for d in case["deco"]:
+            if d[0] == "bound_other" and "bound" in o:
+                ctx.count("w7:foreign-owner annotation observed on the copy")
+        for st in o.get("steps", [])[1:]:
+            ctx.count("w7:second step (other side):" + st["mut"].split(":")[0])
+        if o.get("bound_shallow"):
+            ctx.count("w7:observed (not a clause yet): shallow copy binds a foreign-owner annotation to a hidden clone of the member")
+        return o
 
     kept = []
 
@@ -1001,12 +1324,17 @@ def run(tier, seed, replay=None):
     core.corr_stage(ctx, cases, obs_cached, to_coq_kept, HEADER, "case_ok3",
                     oracle=lambda c, o: oracle(c, o), show_fn="case_run", nontrivial=nontrivial,
                     search=search, shard=shard, sample_fn=sample_fn)
+    dumper_obligations(ctx, unsupported, dispatch_seen)
     iso_hypotheses(ctx, kept, shard)
     iso4_hypotheses(ctx, kept, shard)
     iso5_hypotheses(ctx, kept, shard)
+    alias_hypotheses(ctx, kept, shard)
     shallow_stage(ctx, cases, obs_cached, max(shard, 100))
     return ctx.finish(level="proof",
-                      rule="random decorated trees (<=60 nodes), tree lists, DNA/standard/continuous matrices and namespaces; "
-                           "every copy route; one random later mutation on either side; thorough adds every tree shape with "
-                           "<=5 leaves x every route x {plain, annotated}; non-trivial = source graph of >=12 objects, copy "
+                      rule="random decorated trees (<=60 nodes, with and without a bipartition encoding - frozen or mutable - made "
+                           "before copying, annotations bound with owner_instance= to objects copied earlier / later), tree "
+                           "lists, DNA/standard/continuous matrices and namespaces; every copy route; one random later mutation on "
+                           "either side and (half of the cases) a second one on the other side, incl. in-place bipartition edits; "
+                           "thorough adds every tree shape with <=5 leaves x every route x {plain, annotated, encoded+foreign "
+                           "owner}; non-trivial = source graph of >=12 objects, copy "
                            "succeeded and the mutation was applied; distinct by full case content")
